@@ -633,9 +633,13 @@ class Executor(Engine, ExprMixin, StmtMixin, CallMixin):
         fr = self.frame()
         name = 'loop%d' % ordinal
         ivar = spec.get('index', 'I%d' % ordinal)
+        used = {n.id for b in s.body + s.orelse for n in pyast.walk(b) if isinstance(n, pyast.Name)}
+        spec_text = ' '.join(spec.get('invariant', []) + spec.get('modifies', []) + spec.get('assume', []))
         for vn, vv in list(st.vars.items()):
-            if isinstance(vv, GList):
-                st.vars[vn] = self.as_v(st, vv)      # locally built lists become heap lists at an invariant cut
+            if isinstance(vv, GList) and (vn in used or _re.search(r'\b%s\b' % _re.escape(vn), spec_text)):
+                # locally built lists that the loop touches become heap lists at an invariant cut (a list that the loop
+                # neither mentions nor is specified over keeps its symbolic form: nothing in the loop can change it)
+                st.vars[vn] = self.as_v(st, vv)
         # iterable: symbolic list, or dict view
         view = None
         if isinstance(it, PyObj) and isinstance(it.o, tuple) and it.o and it.o[0] == 'dictview':
